@@ -173,11 +173,11 @@ def gen_vec_script(rng, isz, n):
         elif c < 0.72:
             ops.append("t%d" % rng.choice([0, 2, 4, 9, 33, 64, 129, 257, 600]))
         elif c < 0.80:
-            ops.append("r%d" % rng.choice([1, 2, 5, 16, 33, 100, 400]))
+            ops.append("r%d" % rng.choice([1, 2, 5, 16, 33, 100, 170, 171, 255, 256, 257, 400, 511, 512, 513]))
         elif c < 0.86:
-            ops.append("f%d" % rng.choice([1, 4, 5, 16, 17, 100, 511, 513, 900]))
+            ops.append("f%d" % rng.choice([1, 4, 5, 16, 17, 100, 170, 171, 256, 257, 511, 512, 513, 900, 4294967295]))
         elif c < 0.91:
-            ops.append("w%d" % rng.choice([1, 4, 5, 16, 17, 100, 511, 513]))
+            ops.append("w%d" % rng.choice([1, 4, 5, 16, 17, 100, 170, 171, 256, 257, 511, 512, 513, 4294967295]))
         elif c < 0.94:
             ops.append("c")
         else:
@@ -312,7 +312,13 @@ def gen_jit_script(rng, n, dual):
     ops, live = [], []
     nspans = 0
     for _ in range(n):
-        if live and rng.random() < 0.35:
+        c = rng.random()
+        if live and c < 0.12:
+            i = rng.choice(live)
+            n = rng.choice([0, 1, 64, 65, 500, 4096, 70000])
+            if n == 0: live.remove(i)
+            ops.append("h%d:%d" % (i, n))
+        elif live and c < 0.40:
             i = rng.choice(live); live.remove(i)
             ops.append("k%d" % i)
         else:
